@@ -9,11 +9,14 @@ import multiprocessing as mp
 import os
 import re
 
+from fractions import Fraction as F
+
 from harness.lib import coqterm as ct
+from harness.lib import sym2coq as sc
 from harness.lib.core import VERIF, source_sha
 
 LEVEL = 'proof'
-IMPORTS = 'Base.PyData C08.Model C08.Check'
+IMPORTS = 'Base.PyData Base.Expr Base.Interp Base.Stmts C08.Model C08.Check'
 
 TAGS = {
     1: 'a detector answers differently from the model on the exported system',
@@ -27,17 +30,20 @@ TAGS = {
     15: 'another feature category changed',
     16: 'requesting the same feature again changes the structure',
     17: 'undoing the feature does not restore the structure',
+    19: 'requesting the same feature again changes the model function (statements differ by exact evaluation)',
     18: 'refusal outside the documented refusal set',
     70: 'exported system outside the model domain (duplicate compartment names / no central / no dose)',
     71: 'system before the step is not a valid skeleton graph (oracle skipped)',
+    91: 'statement comparison inconclusive (too few sample points where both sides are defined)',
+    92: 'statement comparison skipped: the second application renamed a parameter',
     72: 'system before the step is not skeleton-shaped (setter correspondence skipped, detectors still compared)',
 }
 CORR = (1, 2, 3, 4)
-ORACLE = (11, 12, 13, 14, 15, 16, 17, 18)
+ORACLE = (11, 12, 13, 14, 15, 16, 17, 18, 19)
 # guard tag -> (finding id, oracle tags it explains)
 GUARDS = {
     51: ('C08-INST-TRANSIT-DEPOT', (11,)),
-    52: ('C08-INST-STALE-SYSTEM', (12, 14, 15, 16)),
+    52: ('C08-INST-STALE-SYSTEM', (12, 14, 15, 16, 19)),
     53: ('C08-SEQ-NO-DEPOT', (11,)),
     54: ('C08-SEQ-TRANSIT-DEPOT', (11,)),
     55: ('C08-ZO-TRANSIT-DEPOT', (12, 13)),
@@ -45,8 +51,8 @@ GUARDS = {
     57: ('C08-FO-SEQ-TRANSITS-NOOP', (14,)),
     58: ('C08-FO-DROPS-LAG', (15,)),
     59: ('C08-NODEPOT-MDT-CLASH', (11,)),
-    60: ('C08-TRANSIT-STALE-LAG', (12, 13, 15, 16)),
-    61: ('C08-SINGLE-TRANSIT', (12, 13, 14, 16)),
+    60: ('C08-TRANSIT-STALE-LAG', (12, 13, 15, 16, 19)),
+    61: ('C08-SINGLE-TRANSIT', (12, 13, 14, 16, 19)),
     62: ('C08-PERIPH-STRING-ORDER', (12, 13, 14, 17)),
     63: ('C08-REMOVE-PERIPH-KRATES', (11,)),
 }
@@ -220,6 +226,33 @@ def detect_term(model, impl=None):
                   'periph': int(nper), 'lag': lag}
 
 
+def stmts_term(model, names):
+    """model.statements as a PV.Base.Stmts list (raises sc.Unconvertible on an unknown node)."""
+    from pharmpy.model import Assignment
+    out = []
+    for st in model.statements:
+        if isinstance(st, Assignment):
+            out.append(f"(Assign {names.p(str(sc.to_sympy(st.symbol)))} {sc.expr(st.expression, names)})")
+        else:
+            out.append(f"(Ode {sc.symset(list(st.amounts), names)} {sc.symset(st.rhs_symbols, names)})")
+    return ct.lst(out)
+
+
+def sample_envs(names, rng):
+    """Exact sample points: integers for the random effects (exp is interpreted as 2**n on integers),
+    positive rationals for everything else."""
+    envs = []
+    for _ in range(4):
+        pt = {}
+        for n in list(names.ids):
+            if n.startswith('ETA') or n.startswith('EPS') or n.startswith('IIV') or n.startswith('SIGMA'):
+                pt[n] = F(rng.choice([0, 1, 2, -1]))
+            else:
+                pt[n] = rng.choice([F(1), F(2), F(4), F(3), F(8), F(1, 2)])
+        envs.append(sc.env(pt, names))
+    return ct.lst(envs)
+
+
 DOCUMENTED = ('Cannot set the number of transits to 1', 'Model already has an infusion given in the dataset',
               'Number of compartments must be integer')
 
@@ -300,26 +333,34 @@ def observe(spec, impl=None, perturb=None):
     g0, _ = graph_term(model, impl)
     d0, _ = detect_term(model, impl)
     steps = []
-    info = {'steps': [], 'calls': 0}
+    info = {'steps': [], 'calls': 0, 'stmt_compared': 0, 'stmt_unconvertible': 0}
+    names = ct.Names()
     for i, r in enumerate(spec['seq']):
         nper = int(O.get_number_of_peripheral_compartments(model))
         m2, res, sinfo = apply_real(model, r, impl)
         info['calls'] += 1
         sinfo['req'] = r
         if m2 is None:
-            steps.append(f'(mkStep {req_term(r)} {res} (mkDet None None 0%nat None 0%nat false) None None)')
+            steps.append(f'(mkStep {req_term(r)} {res} (mkDet None None 0%nat None 0%nat false) None None None)')
             info['steps'].append(sinfo)
             break
         try:
             dterm, dinfo = detect_term(m2, impl)
         except Exception as e:  # a detector that raises on the result: the sequence ends here
             sinfo['detector_exc'] = f'{type(e).__name__}: {str(e)[:80]}'
-            steps.append(f'(mkStep {req_term(r)} (Crash CStmt) (mkDet None None 0%nat None 0%nat false) None None)')
+            steps.append(f'(mkStep {req_term(r)} (Crash CStmt) (mkDet None None 0%nat None 0%nat false) None None None)')
             info['steps'].append(sinfo)
             break
         sinfo['det'] = dinfo
-        _, again, ainfo = apply_real(m2, r, impl)
+        m2b, again, ainfo = apply_real(m2, r, impl)
         info['calls'] += 1
+        again_st = 'None'
+        if m2b is not None:
+            try:
+                again_st = f'(Some ({stmts_term(m2, names)},\n      {stmts_term(m2b, names)}))'
+                info['stmt_compared'] += 1
+            except (sc.Unconvertible, TypeError, ZeroDivisionError):
+                info['stmt_unconvertible'] += 1
         u = undo_candidate(r, nper)
         if u is not None:
             _, ures, _ = apply_real(m2, u, impl)
@@ -329,10 +370,12 @@ def observe(spec, impl=None, perturb=None):
             undo = 'None'
         if perturb is not None:
             res, dterm = perturb(i, r, res, dterm)
-        steps.append(f'(mkStep {req_term(r)} {res}\n   {dterm}\n   (Some {again})\n   {undo})')
+        steps.append(f'(mkStep {req_term(r)} {res}\n   {dterm}\n   (Some {again})\n   {undo}\n   {again_st})')
         info['steps'].append(sinfo)
         model = m2
-    term = f'(mkCase {g0}\n  {d0}\n  {ct.lst(steps)})'
+    import random as _random
+    envs = sample_envs(names, _random.Random(json.dumps(spec, sort_keys=True)))
+    term = f'(mkCase {g0}\n  {d0}\n  {ct.lst(steps)}\n  {envs})'
     return term, info
 
 
@@ -540,6 +583,10 @@ def run(ctx):
         'real_exceptions': {k: sum(1 for _, s in allsteps if s.get('res') == k)
                             for k in sorted({s.get('res') for _, s in allsteps if s.get('res')})},
         'tag_hist': {str(k): v for k, v in sorted(hist.items())},
+        'statement_lists_compared_by_evaluation': sum(i.get('stmt_compared', 0) for i in infos),
+        'statement_lists_unconvertible': sum(i.get('stmt_unconvertible', 0) for i in infos),
+        'statement_comparison_inconclusive(91)': hist.get(91, 0),
+        'statement_comparison_renamed_parameter(92)': hist.get(92, 0),
         'oracle_skipped_steps(71)': hist.get(71, 0),
         'outside_model_domain(70)': hist.get(70, 0),
     }
